@@ -143,6 +143,11 @@ int ADtest(int n, double *x, double *outputs)
     outputs[0] = -n+z/n;
     outputs[1] = 1.-AD(n, -n+z/n);
 
+    /* The small sample correction of AD can push the probability
+     * slightly outside [0, 1] (e.g. n=4 with a very small statistic) */
+    if(outputs[1]<0.) outputs[1] = 0.;
+    if(outputs[1]>1.) outputs[1] = 1.;
+
     return 0;
  }
 
